@@ -600,3 +600,48 @@ def r06_3(ctx, rr):
             rr.ob(ok, key=key + form, sample={"fn": b.key, "mask": show(F, n), "form": form})
             if not ok:
                 rr.violate(key, "%s builds the tail mask `%s` (%s, r = len*width %% BITS): that keeps BITS - r bits where r are live (or vice versa); the live low bits are kept by `MAX >> (BITS - r)` / `(1 << r) - 1` and cleared by `MAX << r`" % (b.key, show(F, n), form), F.loc(n))
+
+
+@rule("R05.7", props=["C05", "C12"], floor=3, title="every safe constructor of BitFieldVec leaves at least one backend word when the bit width is 0")
+def r05_7(ctx, rr):
+    """Zero-width accesses read/write word 0 unconditionally and growth never adds a word when
+    len * 0 bits are needed: the backend must be non-empty from the start."""
+    F = ctx.F()
+    for path in (r"^bits::bit_field_vec::BitFieldVec::<W>::new$", r"^bits::bit_field_vec::BitFieldVec::<W>::new_unaligned$", r"^bits::bit_field_vec::BitFieldVec::<W>::with_capacity$"):
+        b = F.one(path)
+        bw = None
+        for p in b.params:
+            if p.get("name") == "bit_width":
+                bw = ("var", "bit_width", p["id"])
+        lits = []
+
+        def on_node(W, n, K, lits=lits):
+            if n.get("k") == "Struct" and range_of(F, n) is None and any(f["name"] == "bits" for f in n["fields"]):
+                f = [f for f in n["fields"] if f["name"] == "bits"][0]
+                lits.append((n, f["e"], W.T.term(f["e"])))
+        Walker(F, b, on_node=on_node).run()
+        if len(lits) != 1:
+            raise AnchorMissing("%s: struct literal not found" % b.key)
+        n, e, t = lits[0]
+        ok = False
+        why = tshow(t)[:120]
+        # (a) vec![ZERO; k] with k = max(1, ..) or .. + 1
+        if mentions(t, lambda x: x[0] == "call" and x[1].endswith("from_elem")):
+            sz = [x for x in subterms(t) if x[0] == "call" and x[1].endswith("from_elem")][0][2][-1]
+            ok = (sz[0] == "op" and sz[1] == "max" and ("int", 1) in (sz[2], sz[3])) or (lin(sz)[1] >= 1)
+        # (b) a growable local: some push onto it is unconditional or guarded exactly by bit_width == 0
+        elif e.get("k") == "Path" and e.get("res") == "local":
+            lid = e["id"]
+            T = Termizer(F, b)
+            pm = {id(x): ps for x, ps in walk_with_parents(b.body)}
+            for x in walk(b.body):
+                if x.get("k") == "MethodCall" and x["name"] == "push" and x["recv"].get("k") == "Path" and x["recv"].get("id") == lid:
+                    conds = [p for p in pm.get(id(x), ()) if p.get("k") == "If"]
+                    if not conds:
+                        ok = True
+                    elif len(conds) == 1 and cond_atoms(T, conds[0]["c"], True) == cmp_atoms("==", bw, ("int", 0)) and any(y is x for y in walk(conds[0]["th"])):
+                        ok = True
+            if not ok:
+                why = "the backend is a Vec created empty and no word is pushed when bit_width == 0"
+        rr.instances += 1
+        rr.check(ok, "%s:word-for-zero-width" % short_fn(b.key), "%s can return a vector with an empty backend (%s): with bit_width == 0 the next push/resize/get touches word 0 of an empty slice" % (b.key, why), b.span)
